@@ -36,7 +36,7 @@ static FILE* vx_out = 0;
 static int vx_first = 1;
 static inline void jBegin(void) { if (!vx_out) vx_out = stdout; fputc('{', vx_out); vx_first = 1; }
 static inline void jSep(void) { if (!vx_first) fputc(',', vx_out); vx_first = 0; }
-static inline void jEnd(void) { fputs("}\n", vx_out); }
+static inline void jEnd(void) { fputs("}\n", vx_out); fflush(vx_out); }	/* flushed per line: a sanitizer abort must not lose completed lines */
 static inline void jStr(const char* k, const char* v)
 {
 	jSep(); fprintf(vx_out, "\"%s\":\"", k);
